@@ -1,13 +1,18 @@
 pub mod common;
-pub mod roundtrip;
+pub mod prog;
 
 use crate::runner::Scenario;
+use prog::{Mode, Roundtrip};
 
-pub static ROUNDTRIP: roundtrip::Roundtrip = roundtrip::Roundtrip { full: false };
-pub static ROUNDTRIP_FULL: roundtrip::Roundtrip = roundtrip::Roundtrip { full: true };
+pub static ROUNDTRIP: Roundtrip = Roundtrip { mode: Mode::C01 };
+pub static ROUNDTRIP_FULL: Roundtrip = Roundtrip { mode: Mode::C02 };
+pub static STATEMACHINE: Roundtrip = Roundtrip { mode: Mode::C12 };
+pub static APPEND: Roundtrip = Roundtrip { mode: Mode::C13 };
+pub static RAWCOPY: Roundtrip = Roundtrip { mode: Mode::C14 };
+pub static ALIGN: Roundtrip = Roundtrip { mode: Mode::C17 };
 
 pub fn all() -> Vec<&'static dyn Scenario> {
-    vec![&ROUNDTRIP, &ROUNDTRIP_FULL]
+    vec![&ROUNDTRIP, &ROUNDTRIP_FULL, &STATEMACHINE, &APPEND, &RAWCOPY, &ALIGN]
 }
 
 pub fn lookup(name: &str) -> Option<&'static dyn Scenario> {
@@ -21,9 +26,16 @@ pub struct PropCfg {
     pub assumptions: Vec<&'static str>,
 }
 
+const A_MODEL: &str = "reference model follows documented behaviour only (DESIGN R3/R4/R6); format-ambiguous inputs are skipped and counted (R2)";
+const A_CODEC: &str = "codec and crypto primitive crates are trusted (shared with the crate under test)";
+
 pub fn props() -> Vec<PropCfg> {
     vec![
-        PropCfg { id: "C01", level: "exploration", scenarios: vec![&ROUNDTRIP], assumptions: vec!["reference model follows documented behaviour only (DESIGN R3/R4)", "codec crates are trusted", "format-ambiguous inputs are skipped and counted (R2)"] },
-        PropCfg { id: "C02", level: "exploration", scenarios: vec![&ROUNDTRIP_FULL], assumptions: vec!["independent parser written from APPNOTE is the judge; codec crates shared with the crate under test", "literal 0xFFFF/0xFFFFFFFF without ZIP64 accepted"] },
+        PropCfg { id: "C01", level: "exploration", scenarios: vec![&ROUNDTRIP], assumptions: vec![A_MODEL, A_CODEC] },
+        PropCfg { id: "C02", level: "exploration", scenarios: vec![&ROUNDTRIP_FULL], assumptions: vec!["independent parser written from APPNOTE is the judge", A_CODEC, "literal 0xFFFF/0xFFFFFFFF without ZIP64 accepted"] },
+        PropCfg { id: "C12", level: "exploration", scenarios: vec![&STATEMACHINE], assumptions: vec![A_MODEL, A_CODEC, "after a failed state-changing call the model only constrains what the property states (R6)"] },
+        PropCfg { id: "C13", level: "exploration", scenarios: vec![&APPEND], assumptions: vec![A_MODEL, A_CODEC, "the crate's own reading of a foreign base archive is the reference for 'unchanged' (reader fidelity is C03's job)"] },
+        PropCfg { id: "C14", level: "exploration", scenarios: vec![&RAWCOPY], assumptions: vec![A_MODEL, A_CODEC, "source entries are described by the independent parser"] },
+        PropCfg { id: "C17", level: "exploration", scenarios: vec![&ALIGN], assumptions: vec![A_MODEL, A_CODEC] },
     ]
 }
